@@ -113,6 +113,17 @@ def canon_panic(line):
     return rest.split()[0].rstrip(":").split("::")[-1] if rest else "?"
 
 
+def strip_msgs(parse_line):
+    """parser step lists compared modulo the WORDING of diagnostics (`R:<message>` -> `R`): no property
+    depends on message text"""
+    return re.sub(r"(^|[ =])R:\S+", r"\1R", parse_line)
+
+
+def err_positions(errs):
+    """`a-b:message,...` -> ['a-b', ...]"""
+    return [x.split(":", 1)[0] for x in errs.split(",") if x]
+
+
 def fields(line):
     return dict(kv.split("=", 1) for kv in line.split(";") if "=" in kv)
 
@@ -151,7 +162,7 @@ def run(ctx, texts, want_tree=True):
                 if pa != pb:
                     r["dis"].append(("I3 parse", a[:300], b[:300]))
             else:
-                if a != re.sub(r";ipos=\d+$", "", b):
+                if strip_msgs(a) != strip_msgs(re.sub(r";ipos=\d+$", "", b)):
                     r["dis"].append(("I3 parse", a[:300], b[:300]))
             if want_tree:
                 a, b = impl_tree[i], model_tree[i]
@@ -167,7 +178,7 @@ def run(ctx, texts, want_tree=True):
                         eb = [x for x in fb.get(key, "").split(",") if x]
                         # escape-sequence diagnostics of validate_literal are not modelled
                         ea = [x for x in ea if not x.split(":", 1)[1].startswith(UNESCAPE_MSGS)]
-                        if ea != eb:
+                        if [x.split(":", 1)[0] for x in ea] != [x.split(":", 1)[0] for x in eb]:
                             ok = False
                     if not ok:
                         r["dis"].append(("I4 tree", a[:400], b[:400]))
